@@ -650,6 +650,14 @@ example : (run .raw true ["t1", "t2", "t3"] ["t2", "t3"] ⟨0, 2⟩ none).map (f
 example : Gen.ChosenCases.isChosenCase "ab" ["a", "b"] = false ∧ Gen.ChosenCases.isChosenCase "B" ["b"] = false ∧
     Gen.ChosenCases.isChosenCase "" ["a"] = false ∧ Gen.ChosenCases.isChosenCase "" [""] = true ∧
     Gen.ChosenCases.isChosenCase "x" [] = true ∧ Gen.ChosenCases.isChosenCase "b" ["a", "b"] = true := by decide
+-- the regenerated error branch of loadAmmo on concrete errors (C14_model_is_source, hypothesis `e ≠ .nil`): a cancel that
+-- ended the load ↦ context.Canceled, "no ammo" with a live context ↦ "no ammo", no error ↦ on to the filter loop; an
+-- empty http/json array with preload ends with the decoder's "no ammo" through this branch (`LoadAmmo` fails)
+example : RunRes.errNoAmmo ≠ RunRes.nil ∧ Gen.ChosenCases.loadAmmoFail true .canceled = some .canceled ∧
+    Gen.ChosenCases.loadAmmoFail false .errNoAmmo = some .errNoAmmo ∧ Gen.ChosenCases.loadAmmoFail false .nil = none ∧
+    (match loadAmmo (fun b => scanArr b 0) ([] : List Nat) 3 ArrDec.init [] with
+     | some (.error e) => decide (e = .errNoAmmo) | _ => false) = true ∧
+    (runWith .jsonArray true ([] : List Nat) (fun _ => true) ⟨0, 0⟩ none).map (fun o => (o.delivered, o.run)) = some ([], .errNoAmmo) := by decide
 -- C14_spec_holds: a cell cancelled in the middle (cap 3 < 5) and one that is not (cap 9 > 5) are not inconclusive
 example : Spec.C14.inconclusive ⟨["t1", "t2", "t3"], ["t2", "t3"], 5, 0, 3⟩ = false ∧
     Spec.C14.inconclusive ⟨["t1", "t2", "t3"], ["t2", "t3"], 5, 0, 9⟩ = false ∧
